@@ -563,7 +563,7 @@ Definition own_row (srcs : list src) (calls : list callin) (key : rkey) (s : src
     let g := group_of srcs s in
     let fo := fitter k ci in
     let P := mkP s (nth j (fo_par fo) (0, 0, 0)) fo (errs_of fixed nextra (length g) j (fo_cov fo))
-                 (length px) cen (length g) k j in
+                 (length px) cen (length g) k j (nth j (fo_ext fo) []) in
     o_src row = s /\                                   (* id, group_id, *_init, local_bkg of s *)
     o_gsize row = Z.of_nat (length g) /\               (* number of sources sharing s's group id *)
     nth_error calls k = Some ci /\                     (* the k-th fitter call ... *)
@@ -573,6 +573,7 @@ Definition own_row (srcs : list src) (calls : list callin) (key : rkey) (s : src
     FD1 s = inr (px, cen) /\                           (* s's own fit pixels / centre index *)
     o_npix row = Z.of_nat (length px) /\
     o_fit row = p_par P /\                             (* parameters of sub-model j of that call *)
+    o_ext row = nth j (fo_ext fo) [] /\                (* ... including its further free parameters *)
     o_err row = err_cols fixed P /\                    (* slice j of sqrt(diag(cov)) of that call *)
     o_flags row = flags ny nx fy fx sc xyb P /\
     res = nth j (split_res (map (fun d => length (fst d)) (FDOF g)) (resid_of key fo)) [] /\
@@ -591,7 +592,7 @@ Proof.
   pose proof (nth_of_nth_error _ _ _ ([], None) Hd) as Hd'.
   exists k, j, (call_of ny nx fy fx sc msk data xyb srcs s), px, cen.
   eexists. cbv zeta. unfold spec_row, spec_psrc, spec_res. fold g. fold j. rewrite Hd'.
-  cbn [o_src o_gsize o_fit o_err o_npix o_flags o_qnum o_cnum p_gsize p_par p_npix p_cen fst snd].
+  cbn [o_src o_gsize o_fit o_err o_npix o_flags o_qnum o_cnum o_ext p_gsize p_par p_npix p_cen p_ext fst snd].
   repeat split; try reflexivity; auto.
 Qed.
 
